@@ -1,6 +1,6 @@
 (* C15 - Deltas, one-dimensional part: filters, padding, correlate + crop *)
 From Coq Require Import ZArith List Bool Lia ZifyBool.
-From Verif Require Import C15.Model C15.ProofsBase.
+From Verif Require Import C15.Model C15.ProofsBase C15.ProofsGen.
 Import ListNotations.
 Open Scope Z_scope.
 
@@ -66,9 +66,9 @@ Qed.
 (** * the delta filters *)
 
 Lemma delta_base_length W : 0 <= W -> zlen (delta_base W) = 1 + 2 * W.
-Proof. intros. unfold delta_base. rewrite zlen_map, zlen_zrange; lia. Qed.
+Proof. intros. rewrite delta_base_eq. rewrite zlen_map, zlen_zrange; lia. Qed.
 Lemma nthZ_delta_base W k : 0 <= k < 1 + 2 * W -> nthZ 0 (delta_base W) k = k - W.
-Proof. intros. unfold delta_base. now rewrite nthZ_map_zrange. Qed.
+Proof. intros. rewrite delta_base_eq. now rewrite nthZ_map_zrange. Qed.
 
 Lemma filt_of_length base d : 1 <= zlen base ->
   zlen (filt_of base d) = Z.of_nat d * (zlen base - 1) + 1.
@@ -116,7 +116,7 @@ Qed.
 (* Z = sum_t f(t)^2 = W (W+1) (2W+1) / 3 *)
 Lemma delta_den_closed W : 0 <= W -> 3 * delta_den W = W * (W + 1) * (2 * W + 1).
 Proof.
-  intros. unfold delta_den.
+  intros. rewrite delta_den_eq.
   rewrite (zsum_ext _ _ (fun k => k * k + ((- 2 * W) * k + (W * W) * 1))) by (intros; lia).
   rewrite !zsum_add, !zsum_scale.
   pose proof (sum_id (1 + 2 * W) ltac:(lia)).
@@ -224,10 +224,8 @@ Lemma delta_lane_spec m f x mo :
   delta_lane m f x =
   Ok (map (corr_at f (ext_val m (zlen x) (nthZ 0 x)) mo) (zrange (zlen x))).
 Proof.
-  intros Hf Hmo Hx. unfold delta_lane.
-  assert (Emo : (zlen f - 1) / 2 = mo).
-  { rewrite Hf. replace (2 * mo + 1 - 1) with (mo * 2) by lia. apply Z.div_mul. lia. }
-  rewrite Emo. pose proof (zlen_nonneg x) as Hn.
+  intros Hf Hmo Hx. rewrite (delta_lane_eq m f x mo Hf) by lia.
+  pose proof (zlen_nonneg x) as Hn.
   rewrite pad1d_ok by lia. cbn [bind]. f_equal.
   set (n := zlen x) in *. set (g := fun i => ext_val m n (nthZ 0 x) (i - mo)).
   unfold correlate_full. rewrite zlen_map, zlen_zrange by lia.
@@ -235,11 +233,11 @@ Proof.
   rewrite pyslice_table; cbv zeta.
   2: lia.
   2:{ unfold norm_bound.
-      destruct (2 * mo + 1 - 1 <? 0) eqn:E1; destruct (- (2 * mo + 1) + 1 <? 0) eqn:E2; lia. }
-  assert (Es : norm_bound (mo + n + mo + (2 * mo + 1) - 1) (2 * mo + 1 - 1) = 2 * mo).
-  { unfold norm_bound. destruct (2 * mo + 1 - 1 <? 0) eqn:E1; lia. }
-  assert (Ee : norm_bound (mo + n + mo + (2 * mo + 1) - 1) (- (2 * mo + 1) + 1) = n + 2 * mo).
-  { unfold norm_bound. destruct (- (2 * mo + 1) + 1 <? 0) eqn:E1; lia. }
+      destruct (2 * mo <? 0) eqn:E1; destruct (- (2 * mo) <? 0) eqn:E2; lia. }
+  assert (Es : norm_bound (mo + n + mo + (2 * mo + 1) - 1) (2 * mo) = 2 * mo).
+  { unfold norm_bound. destruct (2 * mo <? 0) eqn:E1; lia. }
+  assert (Ee : norm_bound (mo + n + mo + (2 * mo + 1) - 1) (- (2 * mo)) = n + 2 * mo).
+  { unfold norm_bound. destruct (- (2 * mo) <? 0) eqn:E1; lia. }
   rewrite Es, Ee. replace (n + 2 * mo - 2 * mo) with n by lia.
   apply map_zrange_ext. intros t Ht. unfold corr_at. rewrite Hf.
   apply zsum_ext. intros k Hk.
@@ -250,16 +248,14 @@ Lemma delta_lane_err m f x mo :
   zlen f = 2 * mo + 1 -> 1 <= mo -> zlen x = 0 -> is_constant m = false ->
   delta_lane m f x = Err EValue.
 Proof.
-  intros Hf Hmo Hx Hm. unfold delta_lane.
-  assert (Emo : (zlen f - 1) / 2 = mo).
-  { rewrite Hf. replace (2 * mo + 1 - 1) with (mo * 2) by lia. apply Z.div_mul. lia. }
-  rewrite Emo. rewrite pad1d_err by (auto; lia). reflexivity.
+  intros Hf Hmo Hx Hm. rewrite (delta_lane_eq m f x mo Hf) by lia.
+  rewrite pad1d_err by (auto; lia). reflexivity.
 Qed.
 
 (* the quirk behind the precondition 1 <= mo: a one-tap filter is cropped by [0:0] *)
 Lemma delta_lane_one_tap m x c : 1 <= zlen x -> delta_lane m [c] x = Ok [].
 Proof.
-  intros. unfold delta_lane. change (zlen [c]) with 1. change ((1 - 1) / 2) with 0.
+  intros. rewrite (delta_lane_eq m [c] x 0) by (reflexivity || lia).
   rewrite pad1d_ok by lia. cbn [bind]. f_equal.
-  unfold pyslice. change (1 - 1) with 0. change (- (1) + 1) with 0. rewrite Z.sub_diag. reflexivity.
+  unfold pyslice. change (2 * 0) with 0. change (- 0) with 0. rewrite Z.sub_diag. reflexivity.
 Qed.
